@@ -1408,7 +1408,116 @@ fn run_blob_batch(c: &Case) -> Outcome {
 
 // ------------------------------------------------------------------------------------------------
 
+// ------------------------------------------------------------------------------------------------
+// FiberPool::shutdown ("Wait for all active fibers to complete"): the pool is idle when it returns, and only then
+
+#[derive(Clone, Copy, Debug, PartialEq, Eq, Hash, Serialize, Deserialize)]
+pub struct ShutdownCase {
+    /// fibers that are inside their task (parked on a gate) when shutdown() is first polled
+    fibers: u8,
+    max_fibers: u8,
+    max_workers: u8,
+}
+
+pub struct PoolShutdown;
+
+impl EnumSpec for PoolShutdown {
+    type Case = ShutdownCase;
+    fn name(&self) -> String {
+        "FiberPool::shutdown".to_string()
+    }
+    fn space(&self, _tier: Tier) -> String {
+        "current-thread runtime (deterministic): k in 0..=3 fibers accepted by spawn() and parked on a closed gate inside their task, x max_fibers in {k (at least 1), k+1, 2k+2, 8} x max_workers in {1, 2, 4, 16 (> max_fibers)}; shutdown() is polled once (biased select against a ready future): it must be pending while k > 0; the gate is opened and shutdown() awaited (2 s limit): afterwards every accepted fiber has run exactly once and active_fibers is 0".to_string()
+    }
+    fn cases(&self, _tier: Tier, f: &mut dyn FnMut(ShutdownCase) -> bool) {
+        for fibers in 0..=3u8 {
+            let mut mf = vec![fibers.max(1), fibers + 1, 2 * fibers + 2, 8];
+            mf.dedup();
+            for max_fibers in mf {
+                for max_workers in [1u8, 2, 4, 16] {
+                    if !f(ShutdownCase { fibers, max_fibers, max_workers }) {
+                        return;
+                    }
+                }
+            }
+        }
+    }
+    fn run(&self, c: &ShutdownCase) -> Outcome {
+        let c = *c;
+        let rt = runtime(Rt::Current);
+        let r: Result<&'static str, Outcome> = rt.block_on(async move {
+            let pool = match FiberPool::new(FiberPoolConfig { max_fibers: c.max_fibers as usize, max_workers: c.max_workers as usize, ..FiberPoolConfig::default() }) {
+                Ok(p) => p,
+                // a configuration the pool refuses is no case
+                Err(_) => return Ok("config_refused"),
+            };
+            let ran = Arc::new(Mutex::new(vec![0u32; c.fibers as usize]));
+            let (gate_tx, gate_rx) = tokio::sync::watch::channel(false);
+            let mut handles = Vec::new();
+            for i in 0..c.fibers as usize {
+                let ran = ran.clone();
+                let mut gate = gate_rx.clone();
+                handles.push(pool.spawn(async move {
+                    while !*gate.borrow() {
+                        if gate.changed().await.is_err() {
+                            break;
+                        }
+                    }
+                    ran.lock().unwrap()[i] += 1;
+                    Ok(())
+                }));
+            }
+            // let every fiber run up to the gate (it holds its permit from then on)
+            for _ in 0..8 {
+                tokio::task::yield_now().await;
+            }
+            let active = pool.stats().active_fibers;
+            if active != c.fibers as usize {
+                return Err(fail("idle", "fibers_not_started", format!("{} fibers were spawned with max_fibers {} but {} are active after the yields", c.fibers, c.max_fibers, active)));
+            }
+            let early = {
+                let sd = pool.shutdown();
+                tokio::pin!(sd);
+                tokio::select! {
+                    biased;
+                    r = &mut sd => Some(r.is_ok()),
+                    _ = std::future::ready(()) => None,
+                }
+            };
+            if c.fibers > 0 {
+                if let Some(ok) = early {
+                    return Err(fail("idle", "shutdown_returned_with_fibers_running", format!("shutdown() returned {} while {} accepted fiber(s) were still inside their task (max_fibers {}, max_workers {})", if ok { "Ok" } else { "Err" }, c.fibers, c.max_fibers, c.max_workers)));
+                }
+            }
+            let _ = gate_tx.send(true);
+            match tokio::time::timeout(Duration::from_secs(2), pool.shutdown()).await {
+                Err(_) => return Err(fail("idle", "shutdown_hangs", format!("shutdown() did not return within 2 s after every fiber could finish (max_fibers {}, max_workers {})", c.max_fibers, c.max_workers))),
+                Ok(Err(e)) => return Err(fail("idle", "shutdown_err", format!("shutdown() = Err({e})"))),
+                Ok(Ok(())) => {}
+            }
+            let counts = ran.lock().unwrap().clone();
+            if counts.iter().any(|&n| n != 1) {
+                return Err(fail("exactly_once", "not_run_when_shutdown_returned", format!("after shutdown() returned the fibers had run {counts:?} times")));
+            }
+            let active = pool.stats().active_fibers;
+            if active != 0 {
+                return Err(fail("idle", "active_after_shutdown", format!("{active} fibers active after shutdown() returned")));
+            }
+            for h in handles {
+                let _ = h.await;
+            }
+            Ok(if c.fibers == 0 { "no_fibers" } else { "waited" })
+        });
+        match r {
+            Ok("no_fibers") | Ok("config_refused") => Outcome::trivial(r.unwrap()),
+            Ok(cls) => Outcome::pass(cls),
+            Err(o) => o,
+        }
+    }
+}
+
 pub fn register(reg: &mut Registry, _tier: Tier) {
+    reg.add(Enum(PoolShutdown));
     for api in [
         Api::PoolMap,
         Api::PoolForEach,
